@@ -295,6 +295,9 @@ def generate(seed: int, index: int, n: int, k: int) -> Dict[str, Any]:
         "regs": {"S": STACK_TOP, "U": USTACK_TOP, "X": LOG_BASE, "Y": 0x12345},
         "card": {"size": 8192, "fill": st.byte()} if (profile == "card" or st.chance(1, 4)) else None,
         "windows": WINDOWS,
+        # Rust only: "pce500" builds the machine through pce500::load_pce500_rom_window (device memory map with its
+        # write-protected windows), "bare" through CoreRuntime::load_rom alone.
+        "map": "pce500" if st.chance(1, 2) else "bare",
     }
 
     # host events
